@@ -593,6 +593,46 @@ def switch_worker(sub, item):
         sub.add(ob_eval(f"{name}/switched-off keys are exactly zero tensors", all(all(isinstance(v, (int, float)) and v == 0 for v in got[key][0]) for key in got if (key[2] > 0 and not ren) or (key[3] > 0 and not fact))))
 
 
+def sec_common_product_native(rep):
+    """apply_common_scale_variations on a 4-node grid with dense operators (floats): every returned
+    tensor is the FULL product fact_matrix @ raw kernel -- also the rows of nodes below the first node on
+    which the raw kernel lives (on an interpolation basis of degree >= 3 the operators are not
+    triangular: (P x p_l)(x_k) is non-zero for l slightly below k), and also when the raw kernel has
+    exact zeros or entries below the integration accuracy."""
+    from yadism.esf import scale_variations as sv
+    from yadism.coefficient_functions import splitting_functions as split
+
+    rng = np.random.default_rng(3)
+    n = 4
+    for pto in (1, 2):
+        for nf in (3, 5):
+            m = sv.ScaleVariations(order=pto, interpolator=None, activate_ren=True, activate_fact=True)
+            for table in split.raw_labels:
+                for lab in table:
+                    m.operators[(lab, nf)] = rng.uniform(-1.0, 1.0, size=(n, n))
+            fms = m.fact_matrices(nf)
+            for nm, val in (("dense", rng.uniform(0.5, 1.5, size=n)), ("leading zeros", np.array([0.0, 0.0, 1.3, -0.4])), ("leading entries below 1e-13", np.array([3e-14, -2e-15, 0.9, 0.2])), ("single node", np.array([0.0, 0.0, 0.0, 1.0]))):
+                rep.cases += 1
+                partons = np.zeros((14, 1))
+                partons[3, 0], partons[8, 0], partons[7, 0] = 0.7, -0.2, 1.1
+                err = np.abs(val) * 1e-3
+                bad = []
+                try:
+                    for o in range(pto):
+                        out = m.apply_common_scale_variations([((o, 0, 0, 0), (partons, val[np.newaxis, :], err[np.newaxis, :]))], nf)
+                        keys = [k for k in fms if k[2] == o]
+                        if len(out) != len(keys):
+                            bad.append((o, "number of tensors", len(out), len(keys)))
+                        for (key, (_pp, v_sv, e_sv)), fk in zip(out, keys):
+                            exp_v, exp_e = fms[fk] @ val, fms[fk] @ err
+                            if np.shape(v_sv) != np.shape(exp_v) or not np.allclose(v_sv, exp_v, rtol=1e-13, atol=1e-15) or not np.allclose(e_sv, exp_e, rtol=1e-13, atol=1e-15):
+                                bad.append((o, key, np.round(np.asarray(v_sv), 4).tolist(), np.round(exp_v, 4).tolist()))
+                except Exception as e:  # noqa
+                    bad.append(("raised", f"{type(e).__name__}: {e}", None, None))
+                ok = not bad
+                rep.add(ob_eval(f"C05/apply_common_scale_variations/native full product/pto={pto}/nf={nf}/raw kernel: {nm}", ok, detail="" if ok else f"(order, key, got, expected): {bad[0]}", inputs={} if ok else {"raw_kernel": str(val.tolist()), "first_mismatch": str(bad[0])[:500]}, replay={"confirmed": True, "python": "ScaleVariations with dense 4x4 operators: apply_common_scale_variations([((o,0,0,0), (partons, val, err))], nf)"}))
+
+
 def sec_switches(rep):
     """With a variation off, exactly its logarithmic keys vanish and every remaining tensor is
     identical to the all-on run; intrinsic kernels never produce lnF > 0."""
@@ -690,6 +730,8 @@ def sec_runner_wiring(rep):
             for ren, fact in ((True, True), (True, False), (False, True), (False, False)):
                 rep.cases += 1
                 th = H.base_theory(FNS="ZM-VFNS", NfFF=3, PTO=pto_evol, PTODIS=ptodis, RenScaleVar=ren, FactScaleVar=fact)
+                # the switches decide, whatever scale ratios the card carries for later use by apply_pdf
+                th.update(XIR=(1.0, 2.0, 0.5)[(pto_evol + ptodis) % 3], XIF=(0.5, 1.0, 2.0)[(pto_evol + 2 * ptodis) % 3])
                 try:
                     r = runner.Runner(th, H.base_obs())
                     m = r.configs.managers["sv_manager"]
@@ -776,7 +818,7 @@ def run(rep, tier, seed, only=None):
         "one-node grid with formal operators: the code uses the operators only linearly (no operator x operator product is computed at run time), so the identities lift to every grid size",
     )
     rep.stub("eko.beta -> symbolic beta0/beta1", "conv.convolve_vector -> symbolic raw coefficients c_o", "Combiner -> one abstract kernel", "ScaleVariations.operators pre-filled with formal 1x1 operators (compute_raw's cache branch)")
-    for nm, f in (("tables", sec_tables), ("rge", sec_rge), ("rgeshared", sec_rge_shared), ("computeraw", sec_compute_raw), ("operators", sec_operator_construction), ("distributions", sec_kernels_are_distributions), ("switches", sec_switches), ("wiring", sec_runner_wiring), ("apply_pdf", sec_apply_pdf), ("labels", sec_label_moments)):
+    for nm, f in (("tables", sec_tables), ("rge", sec_rge), ("rgeshared", sec_rge_shared), ("computeraw", sec_compute_raw), ("operators", sec_operator_construction), ("distributions", sec_kernels_are_distributions), ("switches", sec_switches), ("commonproduct", sec_common_product_native), ("wiring", sec_runner_wiring), ("apply_pdf", sec_apply_pdf), ("labels", sec_label_moments)):
         if only and only not in nm:
             continue
         rep.add(guarded(f"C05/{nm}", lambda f=f: (f(rep), [])[1]))
